@@ -19,6 +19,7 @@ use std::path::{Path, PathBuf};
 use std::sync::Arc;
 use tokio::sync::Mutex;
 use vmodel::setup::{self, Backend, Config, Pristine};
+pub use vmodel::logs::{all_logs, LogId, Rec};
 
 pub const MS: i128 = 1_000_000;
 
@@ -43,13 +44,6 @@ pub struct World {
     pub backend: Backend,
 }
 
-#[derive(Clone, Debug, PartialEq, Eq)]
-pub struct Rec {
-    pub commit: [u8; 32],
-    pub time_ns: i128,
-    pub len: usize,
-}
-
 #[derive(Debug)]
 pub enum SyncResult {
     Ok(Option<MergeOutcome>),
@@ -68,83 +62,6 @@ impl SyncResult {
             SyncResult::Panicked(_) => "panic",
         }
     }
-}
-
-/// Identifier of a log inside an account.
-#[derive(Clone, Copy, Debug, PartialEq, Eq, PartialOrd, Ord)]
-pub enum LogId {
-    Identity,
-    Account,
-    Device,
-    Files,
-    Folder(VaultId),
-}
-impl LogId {
-    pub fn class(&self) -> &'static str {
-        match self {
-            LogId::Identity => "identity",
-            LogId::Account => "account",
-            LogId::Device => "device",
-            LogId::Files => "files",
-            LogId::Folder(_) => "folder",
-        }
-    }
-    pub fn log_type(&self) -> EventLogType {
-        match self {
-            LogId::Identity => EventLogType::Identity,
-            LogId::Account => EventLogType::Account,
-            LogId::Device => EventLogType::Device,
-            LogId::Files => EventLogType::Files,
-            LogId::Folder(id) => EventLogType::Folder(*id),
-        }
-    }
-}
-
-async fn records_of<T, L>(log: &L) -> Result<Vec<Rec>, String>
-where
-    T: Default + binary_stream::futures::Encodable + binary_stream::futures::Decodable + Send + Sync + 'static,
-    L: EventLog<T>,
-{
-    let stream = log.record_stream(false).await;
-    pin_mut!(stream);
-    let mut out = vec![];
-    while let Some(r) = stream.next().await {
-        let r = r.map_err(|e| format!("{e}"))?;
-        out.push(Rec { commit: r.commit().0, time_ns: time::OffsetDateTime::from(r.time().clone()).unix_timestamp_nanos(), len: r.event_bytes().len() });
-    }
-    Ok(out)
-}
-
-/// All logs of a storage (client account or server account) with their records.
-pub async fn all_logs<S: StorageEventLogs>(storage: &S) -> Result<BTreeMap<LogId, Vec<Rec>>, String> {
-    let mut out = BTreeMap::new();
-    {
-        let l = storage.identity_log().await.map_err(|e| format!("identity_log: {e}"))?;
-        let l = l.read().await;
-        out.insert(LogId::Identity, records_of(&*l).await?);
-    }
-    {
-        let l = storage.account_log().await.map_err(|e| format!("account_log: {e}"))?;
-        let l = l.read().await;
-        out.insert(LogId::Account, records_of(&*l).await?);
-    }
-    {
-        let l = storage.device_log().await.map_err(|e| format!("device_log: {e}"))?;
-        let l = l.read().await;
-        out.insert(LogId::Device, records_of(&*l).await?);
-    }
-    {
-        let l = storage.file_log().await.map_err(|e| format!("file_log: {e}"))?;
-        let l = l.read().await;
-        out.insert(LogId::Files, records_of(&*l).await?);
-    }
-    let folders = storage.folder_details().await.map_err(|e| format!("folder_details: {e}"))?;
-    for s in folders {
-        let l = storage.folder_log(s.id()).await.map_err(|e| format!("folder_log: {e}"))?;
-        let l = l.read().await;
-        out.insert(LogId::Folder(*s.id()), records_of(&*l).await?);
-    }
-    Ok(out)
 }
 
 impl World {
